@@ -103,7 +103,7 @@ class C14(Property):
             'and >= 2 parameters of one kind; distinct by case hash; classes counted: kw-only default before non-default, all/none/some defaults, pos-only with defaults')
 
     def budget(self, tier):
-        return 12000 if tier == 'quick' else 600000
+        return 40000 if tier == 'quick' else 600000
 
     def explicit_cases(self, ctx):
         mx = 2 if ctx.tier == 'quick' else 3
